@@ -36,7 +36,7 @@ def _all_obligations():
     recs, lines = ph.spec_obligations_main(g, m, outs)
     g2, m2, outs2 = ph.run_leaf_loop(ast)
     recs2 = ph.spec_obligations_leaf(g2, m2, outs2)
-    recs2 = recs2 + ph.run_lambdas(ast) + ph.config_frame_scan(ast)
+    recs2 = recs2 + ph.run_lambdas(ast) + ph.config_frame_scan(ast) + ph.run_final_region(ast)
     t0 = time.time()
     recs2 = recs2 + phh.helper_records(ast)
     helper_s = round(time.time() - t0, 2)
